@@ -188,11 +188,7 @@ def reassign (f : Frame) : Option Frame :=
     match assocGet f.st.arguments "variable-list" with
     | some a =>
       if assocHas f.st.arguments "list-of-flags" then none else
-      let v : Arg := match a with
-        | .str _ v => .str "list-of-flags" v
-        | .strs _ v => .strs "list-of-flags" v
-        | .test _ n => .test "list-of-flags" n
-        | .tests _ l => .tests "list-of-flags" l
+      let v : Arg := a.rekey "list-of-flags"
       some { f with st := { f.st with arguments := assocErase f.st.arguments "variable-list" ++ [v],
                                        rargsCnt := 1 } }
     | none => none
@@ -421,12 +417,15 @@ inductive Outcome where
   | crash (what : String)
   | hang
 
+/-- what is still expected when the input ends: the innermost open bracket, else `__expected` -/
+def endExpectation (s : PState) : Option (List TokKind) :=
+  match s.brackets with
+  | b :: _ => some [b]
+  | [] => s.expected
+
 /-- end-of-input checks -/
 def finish (s : PState) (endPos : Nat) (lastLen : Nat) : Outcome :=
-  let exp := match s.brackets with
-    | b :: _ => some [b]
-    | [] => s.expected
-  match exp with
+  match endExpectation s with
   | some e => .reject endPos lastLen (.endExpected e)
   | none =>
     match s.stack with
